@@ -198,6 +198,27 @@ def run_vdriver_raw(sub, in_objs, tag, cwd=None, env=None, clean_env=False, extr
     return [json.loads(l) for l in open(tp) if l.strip()]
 
 
+def tlc_safe(v):
+    """make a JSON value digestible by TLC's Json module (no nulls, floats or big ints; ASCII strings)"""
+    if v is None:
+        return "null"
+    if isinstance(v, bool):
+        return v
+    if isinstance(v, int):
+        return v if -2**31 <= v < 2**31 else str(v)
+    if isinstance(v, float):
+        return repr(v)
+    if isinstance(v, str):
+        if all(0x20 <= ord(ch) < 0x7f for ch in v):
+            return v
+        return "".join(ch if 0x20 <= ord(ch) < 0x7f else "\\u{%x}" % ord(ch) for ch in v)
+    if isinstance(v, list):
+        return [tlc_safe(x) for x in v]
+    if isinstance(v, dict):
+        return {tlc_safe(k): tlc_safe(x) for k, x in v.items() if x is not None}
+    return str(v)
+
+
 def concretise(shaders):
     """abstract shader records -> WGSL texts, through the driver's concretiser"""
     build_harness()
